@@ -246,7 +246,8 @@ def catalogue(fam, p, rng):
             for tail_ in (b'', b'\xc0\x00'):
                 res.append(('remaining-length-zero', canon[:1] + sp + tail_, {'poll': 'err InvalidRemainingLength'}))
     # --- remaining length 1 on the packets whose body starts with a two-byte field
-    if kind in ('connack', 'puback', 'pubrec', 'pubrel', 'pubcomp', 'unsuback', 'suback', 'subscribe', 'unsubscribe'):
+    if kind in ('connack', 'puback', 'pubrec', 'pubrel', 'pubcomp', 'unsuback', 'suback', 'subscribe', 'unsubscribe') or \
+            (kind == 'auth' and len(canon) > hl + 1):
         res.append(('remaining-length-one', canon[:1] + b'\x01' + canon[hl:hl + 1], {'poll': 'err InvalidRemainingLength'}))
     # --- the declared remaining length ends inside the last subscription entry while the stream goes on with
     #     bytes a decoder could mistake for the rest of the entry (a legal options byte / filter byte, then more)
